@@ -524,10 +524,17 @@ MODEL_PRELUDE = """From Verif Require Import Base.PyInt C16.Asm C16.HexBytes C16
 Open Scope list_scope.
 Fixpoint leq (a b : list Z) : bool :=
   match a, b with [], [] => true | x :: a', y :: b' => (x =? y) && leq a' b' | _, _ => false end.
-(* result: (verdict, wf, symbol_map, const_map); verdict "ok" iff the model's bytes equal `expect` *)
+Fixpoint first_diff (a b : list Z) (i : Z) : Z :=
+  match a, b with [], [] => -1 | x :: a', y :: b' => if x =? y then first_diff a' b' (i + 1) else i | _, _ => i end.
+(* result: (verdict, wf, symbol_map, const_map); verdict "ok" iff the model's bytes equal `expect`,
+   otherwise "ne:" ++ hex [offset of the first difference (3 bytes); model bytes there (up to 8)] *)
 Definition run (v : Z) (expect : list Z) (asm : list item) :=
   match assemble (opcode_table v) (has_push0 v) asm with
-  | Ok (bs, sm, cm) => (if leq bs expect then "ok"%string else hex bs, wf_asm (opcode_table v) asm, sm, cm)
+  | Ok (bs, sm, cm) =>
+      (if leq bs expect then "ok"%string
+       else let i := first_diff bs expect 0 in
+            ("ne:" ++ hex ([i / 65536; (i / 256) mod 256; i mod 256] ++ firstn 8 (skipn (Z.to_nat i) bs)))%string,
+       wf_asm (opcode_table v) asm, sm, cm)
   | Err _ => ("err"%string, false, [], [])
   end.
 """
